@@ -390,7 +390,98 @@ func c08Converge(h *ipamHist) {
 		}
 		return unpaired
 	}
+	// dryStuck (mu held): dual stack, and an interface on a vSwitch that has run dry (the cloud said so to the controller
+	// in this phase, or it has no address left) holds idle addresses of one family without partners, or addresses
+	// bound to a pod in one family only: nothing on that interface can be paired, and the pool's per-family totals
+	// do not see it
+	dryStuck := func() bool {
+		if !(h.cfg.V4 && h.cfg.V6) || m.lastCR == nil {
+			return false
+		}
+		dry := map[string]bool{}
+		for id := range m.vswFull {
+			dry[id] = true
+		}
+		for id, free := range h.cloud.VSWFree() {
+			if free <= 0 {
+				dry[id] = true
+			}
+		}
+		for _, e := range m.lastCR.Status.NetworkInterfaces {
+			if e.Status != "InUse" || !dry[e.VSwitchID] {
+				continue
+			}
+			i4, i6 := 0, 0
+			b4, b6 := map[string]bool{}, map[string]bool{}
+			for _, v := range e.IPv4 {
+				if v.Status != v1beta1.IPStatusValid {
+					continue
+				}
+				if v.PodID == "" {
+					i4++
+				} else {
+					b4[v.PodID] = true
+				}
+			}
+			for _, v := range e.IPv6 {
+				if v.Status != v1beta1.IPStatusValid {
+					continue
+				}
+				if v.PodID == "" {
+					i6++
+				} else {
+					b6[v.PodID] = true
+				}
+			}
+			if i4 != i6 {
+				return true
+			}
+			for p := range b4 {
+				if !b6[p] {
+					return true
+				}
+			}
+			for p := range b6 {
+				if !b4[p] {
+					return true
+				}
+			}
+		}
+		return false
+	}
+	// halfBound (mu held): dual stack, and some pod is bound in one family only (a record taken over from a single-stack
+	// past): the partner must come from the same interface, the pool adds pairs wherever there is room
+	halfBound := func() bool {
+		if !(h.cfg.V4 && h.cfg.V6) || m.lastCR == nil {
+			return false
+		}
+		b4, b6 := map[string]bool{}, map[string]bool{}
+		for _, e := range m.lastCR.Status.NetworkInterfaces {
+			for _, v := range e.IPv4 {
+				if v.PodID != "" {
+					b4[v.PodID] = true
+				}
+			}
+			for _, v := range e.IPv6 {
+				if v.PodID != "" {
+					b6[v.PodID] = true
+				}
+			}
+		}
+		for p := range b4 {
+			if !b6[p] {
+				return true
+			}
+		}
+		for p := range b6 {
+			if !b4[p] {
+				return true
+			}
+		}
+		return false
+	}
 	var unpairedHist []int
+	dryHist, halfHist := false, 0
 	stable, rounds := 0, 0
 	for rounds < 40 && (stable < 2 || waitingFresh() > 0) {
 		calls := h.cloud.MutatingCalls()
@@ -402,6 +493,10 @@ func c08Converge(h *ipamHist) {
 		m.mu.Lock()
 		after := c08RecSig(m.lastCR)
 		unpairedHist = append(unpairedHist, unpairedOf(m.lastCR))
+		dryHist = dryHist || dryStuck()
+		if halfBound() {
+			halfHist++
+		}
 		m.mu.Unlock()
 		if h.cloud.MutatingCalls() == calls && reflect.DeepEqual(before, after) {
 			stable++
@@ -418,12 +513,18 @@ func c08Converge(h *ipamHist) {
 		// interface whose vSwitch is exhausted, ...). The pool sizes by per-family totals, a dual-stack pod needs
 		// a pair on one interface: what MinPoolSize/waiting pods ask for and what MaxPoolSize trims can then
 		// disagree forever. Oscillations without that signature are reported under the plain site.
-		// (judged over the last four rounds: the oscillation passes through states with and without such addresses)
+		// (judged over all rounds after the faults stopped: the oscillation passes through states with and without such addresses)
 		if h.cfg.V4 && h.cfg.V6 {
-			for _, u := range unpairedHist[max(0, len(unpairedHist)-4):] {
+			for _, u := range unpairedHist {
 				if u > 0 {
 					site = "40-rounds/dual-stack/unpaired-idle"
 				}
+			}
+			if site == "40-rounds" && dryHist {
+				site = "40-rounds/dual-stack/vswitch-dry"
+			}
+			if site == "40-rounds" && halfHist == len(unpairedHist) && halfHist > 0 {
+				site = "40-rounds/dual-stack/half-bound" // in every round after the faults stopped
 			}
 		}
 		m.violate("C08", "C08.no-fixed-point", site, fmt.Sprintf("after faults stopped the controller still mutates cloud or record in round %d (config %+v)", rounds, h.cfg))
@@ -659,7 +760,12 @@ func c08Converge(h *ipamHist) {
 			m.r.Count("pods_waiting_beyond_capacity_not_judged", 1)
 			continue
 		}
-		m.violate("C08", "C08.pod-without-address", fmt.Sprintf("rdma=%v", rd), fmt.Sprintf("pod %s exists, is eligible and has no address at the fixed point although capacity suffices (normal demand %d / capacity %d, rdma demand %d / capacity %d)", p.Name, normalDemand, normalCap, rdmaDemand, rdmaCap))
+		site := fmt.Sprintf("rdma=%v", rd)
+		if dryStuck() {
+			// the fixed-point face of the same dual-stack weakness
+			site += "/dual-stack/vswitch-dry"
+		}
+		m.violate("C08", "C08.pod-without-address", site, fmt.Sprintf("pod %s exists, is eligible and has no address at the fixed point although capacity suffices (normal demand %d / capacity %d, rdma demand %d / capacity %d)", p.Name, normalDemand, normalCap, rdmaDemand, rdmaCap))
 	}
 
 	// ---- pool band ----
